@@ -1,6 +1,6 @@
 use crate::util::*;
 use std::io::Write;
-use torrent_bootstrap::{BencodeToken, File, Info, Parser, Pieces, Torrent};
+use torrent_bootstrap::{get_sha1_hexdigest, BencodeToken, File, Info, Parser, Pieces, Torrent};
 
 fn hash_of(i: usize) -> Vec<u8> {
     let mut h = vec![0u8; 20];
@@ -84,5 +84,56 @@ pub fn decode() {
             Ok(Err(_)) => writeln!(out, "{} err", id).unwrap(),
             Err(_) => writeln!(out, "{} panic", id).unwrap(),
         }
+    }
+}
+
+fn hx(b: &[u8]) -> String { if b.is_empty() { "-".to_string() } else { hex(b) } }
+
+pub fn render_torrent(t: &Torrent) -> String {
+    let files = match &t.info.files {
+        None => "-".to_string(),
+        Some(fs) => format!("[{}]", fs.iter().map(|f| format!("{}:{}", f.length, f.path.iter().map(|p| hx(p.as_bytes())).collect::<Vec<_>>().join("/"))).collect::<Vec<_>>().join(",")),
+    };
+    let len = match t.info.length { None => "-".to_string(), Some(l) => l.to_string() };
+    format!("ok name={} len={} files={} pl={} hashes={} ih={}", hx(t.info.name.as_bytes()), len, files, t.info.piece_length,
+        t.info.pieces.iter().map(|p| hx(p)).collect::<Vec<_>>().join(","), hx(&t.info_hash))
+}
+
+/// Case: `<id> <hex of the document>`.
+pub fn load() {
+    quiet_panics();
+    let out = std::io::stdout();
+    let mut out = std::io::BufWriter::new(out.lock());
+    for line in lines() {
+        let (id, h) = line.split_once(' ').unwrap();
+        let bytes = unhex(h);
+        match guarded(move || Torrent::from_bytes(&bytes)) {
+            Ok(Ok(t)) => writeln!(out, "{} {}", id, render_torrent(&t)).unwrap(),
+            Ok(Err(_)) => writeln!(out, "{} err", id).unwrap(),
+            Err(_) => writeln!(out, "{} panic", id).unwrap(),
+        }
+    }
+}
+
+/// Case: `<id> <hex>`: the hexadecimal rendering used for directory names.
+pub fn hexdigest() {
+    let out = std::io::stdout();
+    let mut out = std::io::BufWriter::new(out.lock());
+    for line in lines() {
+        let (id, h) = line.split_once(' ').unwrap();
+        writeln!(out, "{} {}", id, hx(get_sha1_hexdigest(&unhex(h)).as_bytes())).unwrap();
+    }
+}
+
+/// Case: `<id> <hex>`: SHA-1 by the sha1 crate (validates the executable instance of H).
+pub fn sha1() {
+    use sha1::{Digest, Sha1};
+    let out = std::io::stdout();
+    let mut out = std::io::BufWriter::new(out.lock());
+    for line in lines() {
+        let (id, h) = line.split_once(' ').unwrap();
+        let mut hasher = Sha1::new();
+        hasher.update(&unhex(h));
+        writeln!(out, "{} {}", id, hex(&hasher.finalize())).unwrap();
     }
 }
